@@ -43,6 +43,10 @@ def run_algo_task(task, make_oracles, nontrivial=None, learner_classes=None, on_
     for v in st.violations:
         if "task" not in v:
             v["task"] = task
+    for v, n in st.soft.values():
+        if "task" not in v:
+            # a soft violation is replayed with the horizon at which it was seen
+            v["task"] = dict(task, T=v["T"])
     return st
 
 
@@ -52,10 +56,15 @@ def replay_algo(task, script, make_oracles, learner_classes=None, labels=None, o
     t = dict(task)
     rf = reward_fn_of(t)
 
+    def hook(ctx):
+        ctx.extra["stats"] = st
+        if construct_hook:
+            construct_hook(ctx)
+
     out = []
     try:
-        world.execute(t["cfg"], script, None, 0, t["T"], rf, make_oracles(),
-                      learner_classes() if callable(learner_classes) else learner_classes, labels, construct_hook)
+        world.execute(t["cfg"], script, None, -1, t["T"], rf, make_oracles(),
+                      learner_classes() if callable(learner_classes) else learner_classes, labels, hook)
     except world.Violation as v:
         out.append({"oracle": v.oracle, "message": v.message, "details": world._jsonable(v.details)})
     except world.AlgoCrash as c:
@@ -66,7 +75,8 @@ def replay_algo(task, script, make_oracles, learner_classes=None, labels=None, o
                 out.append({"oracle": v.oracle, "message": v.message, "details": world._jsonable(v.details)})
         else:
             out.append("crash: %s" % c)
-    return out
+    softs = [{"oracle": v["oracle"], "message": v["message"], "details": v["details"]} for v, n in st.soft.values()]
+    return softs + out
 
 
 def split_prefixes(task, depth, make_oracles=None, learner_classes=None, labels=None):
@@ -84,7 +94,7 @@ def split_prefixes(task, depth, make_oracles=None, learner_classes=None, labels=
                 new.append(p)
                 continue
             try:
-                pts, _ = world.execute(task["cfg"], p, None, 0, task["T"], rf, [],
+                pts, _ = world.execute(task["cfg"], p, None, -1, task["T"], rf, [],
                                        learner_classes() if callable(learner_classes) else learner_classes, labels)
             except (world.AlgoCrash, world.Violation):
                 pts = list(world.seam().src.points)
